@@ -22,7 +22,7 @@ ASSUMPTIONS = [
 ]
 N_RANDOM = {'quick': 1500, 'thorough': 10000}
 STAGES = ['shuffle_once', 'reshuffle', 'local', 'local_copy', 'reshuffle_catch', 'reshuffle_apply', 'reshuffle_copy',
-          'tile_shuffle', 'choice']
+          'reshuffle_prefetch', 'tile_shuffle', 'choice']
 
 
 # stages whose iteration runs ReShuffleDataset.__iter__ directly on the shared object (the K1 situation)
@@ -45,6 +45,8 @@ def build(stage, n, buf, sd, extra):
         return base.shuffle(True, rng=rng).map(lambda x: x).copy(), n
     if stage == 'reshuffle_catch':
         return base.shuffle(True, rng=rng).map(lambda x: x).catch(), n
+    if stage == 'reshuffle_prefetch':
+        return base.shuffle(True, rng=rng).map(lambda x: x).prefetch(2, 2), n
     if stage == 'reshuffle_apply':
         return base.shuffle(True, rng=rng).apply(lambda d: d.map(lambda x: x), lazy=True), n
     if stage == 'local':
@@ -194,10 +196,12 @@ def run_shard(tier, idx, nshards, rec, known):
     nmax3 = 2 if tier == 'quick' else 3
     k = 0
     for stage in ['shuffle_once', 'reshuffle', 'local', 'local_copy', 'reshuffle_catch', 'reshuffle_apply',
-                  'reshuffle_copy']:
+                  'reshuffle_copy', 'reshuffle_prefetch']:
         for n_iters, nmax in ((1, 5), (2, nmax2), (3, nmax3)):
             for n in range(0, nmax + 1):
                 bufs = range(1, n + 2) if stage.startswith('local') else [1]
+                if stage == 'reshuffle_prefetch' and (n_iters == 3 or n > 3):
+                    continue  # real threads: keep the enumerated part small
                 for wd in words(n_iters, n + 1) if n_iters > 1 else [()]:
                     k += 1
                     if k % nshards != idx:
